@@ -1,6 +1,175 @@
-//! Property C19 — correspondence / expectation run (see DESIGN.md §5, C19).
+//! Property C19 — succinctness: commitment and proof sizes follow each scheme's law.
+use crate::common::*;
+use crate::generic::*;
 use crate::Ctx;
+use ark_bls12_381::Fr;
+use ark_poly::Polynomial;
+use ark_poly_commit::{LabeledPolynomial, PolynomialCommitment};
+use ark_serialize::{CanonicalSerialize, Compress};
+
+fn size<T: CanonicalSerialize>(x: &T) -> usize {
+    x.serialized_size(Compress::Yes)
+}
+
+const G1: usize = 48;
+const FR: usize = 32;
+
+/// commit one polynomial of the given size, open it at one point; return (commitment bytes, proof bytes, sizes)
+fn one<S: Scheme>(rng: &mut Rng, sizes: &Sizes, degree: usize, bound: bool, hiding: bool) -> Option<(usize, usize, usize)>
+where
+    <S::P as Polynomial<Fr>>::Point: Clone + Ord + std::fmt::Debug,
+{
+    let pp = S::PC::setup(sizes.max_degree, sizes.num_vars, rng).ok()?;
+    let p = S::rand_poly(rng, sizes, degree);
+    let b = if bound && S::BOUNDS { Some(sizes.supported) } else { None };
+    let h = if hiding && S::HIDING { Some(1) } else { None };
+    let bv = b.map(|x| vec![x]);
+    let (ck, vk) = S::PC::trim(&pp, sizes.supported, 1, bv.as_deref()).ok()?;
+    let lp = LabeledPolynomial::new("p".to_string(), p.clone(), b, h);
+    let (c, st) = S::PC::commit(&ck, [&lp], Some(rng)).ok()?;
+    let z = S::rand_point(rng, sizes);
+    let mut sp = fresh_sponge();
+    let proof = S::PC::open(&ck, [&lp], &c, &z, &mut sp, &st, Some(rng)).ok()?;
+    let bp: <S::PC as PolynomialCommitment<Fr, S::P>>::BatchProof = vec![proof.clone()].into();
+    let mut vs = fresh_sponge();
+    let ok = S::PC::check(&vk, &c, &z, [p.evaluate(&z)], &proof, &mut vs, Some(rng)).ok()?;
+    if !ok {
+        return None;
+    }
+    // batch proof = 8-byte length prefix + the single proof
+    Some((size(c[0].commitment()), size(&bp) - 8, size(&bp)))
+}
+
+fn fail(ctx: &mut Ctx, id: &str, scheme: &str, what: String) {
+    ctx.rep.expect_fail(id, &format!("{}/size-law", scheme), &what, format!("# scheme: {}\n# case: {}\n# seed: {}\n# {}\n", scheme, id, ctx.seed, what));
+}
 
 pub fn run(ctx: &mut Ctx) {
-    let _ = ctx;
+    let degs: Vec<usize> = if ctx.thorough { vec![2, 3, 4, 7, 8, 16, 31, 32, 64, 128, 256] } else { vec![2, 4, 8, 16, 32, 64] };
+    // --- univariate pairing / IPA schemes: equalities
+    for &d in &degs {
+        for (bound, hiding) in [(false, false), (true, false), (false, true), (true, true)] {
+            let id = format!("C19/uni/{}/{}{}", d, bound as u8, hiding as u8);
+            if !ctx.selected(&id) { continue; }
+            let mut rng = rng_for(ctx.seed, "C19/uni", (d * 4 + bound as usize * 2 + hiding as usize) as u64);
+            let sizes = Sizes { max_degree: d, supported: d, num_vars: None };
+            // Marlin: commitment = G1 + Option<G1>; proof = G1 + Option<Fr>
+            if let Some((c, p, _)) = one::<Marlin>(&mut rng, &sizes, d, bound, hiding) {
+                let ec = G1 + 1 + if bound { G1 } else { 0 };
+                let ep = G1 + 1 + if hiding { FR } else { 0 };
+                if c != ec || p != ep { fail(ctx, &id, "marlin", format!("degree {}: commitment {} (law {}), proof {} (law {})", d, c, ec, p, ep)); }
+                ctx.rep.case(&format!("marlin deg={} bound={} hiding={} comm={}B proof={}B", d, bound, hiding, c, p), Some(format!("marlin/{}/{}{}", d, bound, hiding)));
+            } else { fail(ctx, &id, "marlin", "honest transcript failed".into()); }
+            if let Some((c, p, _)) = one::<Sonic>(&mut rng, &sizes, d, bound, hiding) {
+                let ec = G1;
+                let ep = G1 + 1 + if hiding { FR } else { 0 };
+                if c != ec || p != ep { fail(ctx, &id, "sonic", format!("degree {}: commitment {} (law {}), proof {} (law {})", d, c, ec, p, ep)); }
+                ctx.rep.case(&format!("sonic deg={} bound={} hiding={} comm={}B proof={}B", d, bound, hiding, c, p), Some(format!("sonic/{}/{}{}", d, bound, hiding)));
+            } else { fail(ctx, &id, "sonic", "honest transcript failed".into()); }
+            if let Some((c, p, _)) = one::<Ipa>(&mut rng, &sizes, d, bound, hiding) {
+                let rounds = ((d + 1).next_power_of_two()).trailing_zeros() as usize;
+                let ec = G1 + 1 + if bound { G1 } else { 0 };
+                // l_vec, r_vec (8-byte length each) + final_comm_key + c + Option<hiding_comm> + Option<rand>
+                let ep = 2 * (8 + rounds * G1) + G1 + FR + 1 + if hiding { G1 } else { 0 } + 1 + if hiding { FR } else { 0 };
+                if c != ec || p != ep { fail(ctx, &id, "ipa", format!("degree {}: commitment {} (law {}), proof {} (law {}: two group elements per halving round, {} rounds)", d, c, ec, p, ep, rounds)); }
+                ctx.rep.case(&format!("ipa deg={} rounds={} comm={}B proof={}B", d, rounds, c, p), Some(format!("ipa/{}/{}{}", d, bound, hiding)));
+            } else { fail(ctx, &id, "ipa", "honest transcript failed".into()); }
+        }
+    }
+    // --- PST13: one group element per variable
+    for nv in 1..=(if ctx.thorough { 6 } else { 4 }) {
+        for d in [1usize, 2, 4] {
+            for hiding in [false, true] {
+                let id = format!("C19/pst13/{}/{}/{}", nv, d, hiding);
+                if !ctx.selected(&id) { continue; }
+                let mut rng = rng_for(ctx.seed, "C19/pst13", (nv * 100 + d * 2 + hiding as usize) as u64);
+                let sizes = Sizes { max_degree: d, supported: d, num_vars: Some(nv) };
+                if let Some((c, p, _)) = one::<Pst13>(&mut rng, &sizes, d, false, hiding) {
+                    let ec = G1 + 1;
+                    let ep = 8 + nv * G1 + 1 + if hiding { FR } else { 0 };
+                    if c != ec || p != ep { fail(ctx, &id, "pst13", format!("nv {} degree {}: commitment {} (law {}), proof {} (law {})", nv, d, c, ec, p, ep)); }
+                    ctx.rep.case(&format!("pst13 nv={} deg={} hiding={} comm={}B proof={}B", nv, d, hiding, c, p), Some(format!("pst13/{}/{}/{}", nv, d, hiding)));
+                } else { fail(ctx, &id, "pst13", "honest transcript failed".into()); }
+            }
+        }
+    }
+    // --- Hyrax: 2^(n/2) row commitments, proof vector z of 2^(n/2) scalars
+    for nv in (2..=(if ctx.thorough { 12 } else { 8 })).step_by(2) {
+        let id = format!("C19/hyrax/{}", nv);
+        if !ctx.selected(&id) { continue; }
+        let mut rng = rng_for(ctx.seed, "C19/hyrax", nv as u64);
+        let sizes = Sizes { max_degree: 1, supported: 1, num_vars: Some(nv) };
+        if let Some((c, p, _)) = one::<Hyrax>(&mut rng, &sizes, 1, false, false) {
+            let dim = 1usize << (nv / 2);
+            let ec = 8 + dim * G1;
+            // Vec<HyraxProof> with one element: 8 + (3 G1 + (8 + dim Fr) + 3 Fr)
+            let ep = 8 + 3 * G1 + 8 + dim * FR + 3 * FR;
+            if c != ec || p != ep { fail(ctx, &id, "hyrax", format!("nv {}: commitment {} (law {}), proof {} (law {})", nv, c, ec, p, ep)); }
+            ctx.rep.case(&format!("hyrax nv={} dim={} comm={}B proof={}B", nv, dim, c, p), Some(format!("hyrax/{}", nv)));
+        } else { fail(ctx, &id, "hyrax", "honest transcript failed".into()); }
+    }
+    // --- Ligero / Brakedown: constant commitment; proof within 4x of the best power-of-two shape
+    let ldegs: Vec<usize> = if ctx.thorough { vec![2, 16, 64, 255, 256, 600, 1023, 2048, 4095, 8192] } else { vec![2, 64, 256, 1023, 4096] };
+    lincode::<UniLigero>(ctx, "uni-ligero", &ldegs.iter().map(|d| Sizes { max_degree: *d, supported: *d, num_vars: None }).collect::<Vec<_>>(), 4.0, true);
+    let nvs: Vec<usize> = if ctx.thorough { (2..=12).collect() } else { vec![2, 4, 6, 8, 10] };
+    lincode::<MlLigero>(ctx, "ml-ligero", &nvs.iter().map(|n| Sizes { max_degree: 1, supported: 1, num_vars: Some(*n) }).collect::<Vec<_>>(), 4.0, true);
+    lincode::<Brakedown>(ctx, "brakedown", &nvs.iter().filter(|n| **n >= 3).map(|n| Sizes { max_degree: 1, supported: 1, num_vars: Some(*n) }).collect::<Vec<_>>(), 1.521, false);
+    crate::generic::c19_extra(ctx);
+}
+
+/// modelled proof size for a matrix with `n_rows` rows (one polynomial, one point)
+/// returns (bytes, t < n_ext)
+fn model_size<F: ark_ff::PrimeField>(n_coeffs: usize, n_rows: usize, rate: f64, pow2_ext: bool, sec: usize, dist: (usize, usize), wf: bool) -> (usize, bool) {
+    let n_cols = (n_coeffs + n_rows - 1) / n_rows;
+    let mut n_ext = (n_cols as f64 * rate).ceil() as usize;
+    if pow2_ext { n_ext = n_ext.next_power_of_two(); }
+    let t = ark_poly_commit::verif_hooks::calculate_t::<F>(sec, dist, n_ext).unwrap_or(n_ext);
+    let depth = (n_ext.next_power_of_two()).trailing_zeros() as usize;
+    // path: leaf_sibling (8 + 32 bytes), auth_path (8 + (depth-1)*32), leaf_index 8
+    let path = 8 + 32 + 8 + depth.saturating_sub(1) * 32 + 8;
+    let v = 8 + n_cols * FR;
+    (8 + t * path + v + 8 + t * (8 + n_rows * FR) + 1 + if wf { v } else { 0 }, t < n_ext)
+}
+
+fn lincode<S: Scheme>(ctx: &mut Ctx, name: &str, ladder: &[Sizes], rate: f64, pow2_ext: bool)
+where
+    <S::P as Polynomial<Fr>>::Point: Clone + Ord + std::fmt::Debug,
+{
+    for sizes in ladder {
+        let id = format!("C19/{}/{:?}/{}", name, sizes.num_vars, sizes.supported);
+        if !ctx.selected(&id) { continue; }
+        let mut rng = rng_for(ctx.seed, &format!("C19/{}", name), (sizes.supported * 64 + sizes.num_vars.unwrap_or(0)) as u64);
+        let n_coeffs = match sizes.num_vars { Some(nv) => 1usize << nv, None => sizes.supported + 1 };
+        match one::<S>(&mut rng, sizes, sizes.supported, false, false) {
+            Some((c, _p, bp)) => {
+                // commitment: metadata (3 usize) + length-prefixed 32-byte root: the same for every size
+                if c != 24 + 8 + 32 { fail(ctx, &id, name, format!("commitment size {} is not the constant 64", c)); }
+                // Vec<Proof> (8) of one LPCPArray (8) of one proof
+                let actual = bp - 8;
+                let (sec, dist, wf) = (128usize, if name == "brakedown" { (61 * 1000, 1000 * 1521) } else { (3usize, 4usize) }, true);
+                // the law applies once the number of column openings is below the codeword length;
+                // shapes that open the whole codeword are not "succinct" shapes and do not compete
+                let mut best = usize::MAX;
+                let mut best_rows = 0;
+                let mut j = 0;
+                while (1usize << j) <= n_coeffs.next_power_of_two() {
+                    let (s, succinct) = model_size::<Fr>(n_coeffs, 1 << j, rate, pow2_ext, sec, dist, wf);
+                    if succinct && s < best { best = s; best_rows = 1 << j; }
+                    j += 1;
+                }
+                if best == usize::MAX {
+                    ctx.rep.count(&format!("{}/below-succinct-regime", name));
+                    ctx.rep.case(&format!("{} N={} comm={}B proof={}B (every shape opens the whole codeword)", name, n_coeffs, c, actual), Some(format!("{}/{}", name, n_coeffs)));
+                    continue;
+                }
+                if actual > 4 * best {
+                    fail(ctx, &id, name, format!("N={} proof {}B exceeds 4 x {}B (best power-of-two shape: {} rows)", n_coeffs, actual, best, best_rows));
+                }
+                ctx.rep.count(&format!("{}/ratio-x10-{}", name, (actual * 10) / best.max(1)));
+                ctx.rep.case(&format!("{} N={} comm={}B proof={}B best-model={}B ({} rows) ratio={:.2}", name, n_coeffs, c, actual, best, best_rows, actual as f64 / best as f64),
+                    Some(format!("{}/{}", name, n_coeffs)));
+            }
+            None => fail(ctx, &id, name, "honest transcript failed".into()),
+        }
+    }
 }
